@@ -3,8 +3,6 @@ NEXT Next
 INVARIANT Inv
 CHECK_DEADLOCK FALSE
 CONSTANTS
-  MaxCie = 2
-  MaxFde = 3
-  MaxTotal = 2
-  Alpha = "core"
+  Plan = "quick"
+  MaxBytes = 2
   Quick = TRUE
